@@ -12,7 +12,9 @@
 #include <algorithm>
 #include <csignal>
 #include <fstream>
+#include <map>
 #include <memory>
+#include <set>
 #include <votca/csg/cgengine.h>
 #include <votca/csg/topology.h>
 #include <votca/csg/topologymap.h>
@@ -170,7 +172,7 @@ static void gen_weights(vfh::Rng &r, const MolType &T, BeadDef &bd) {
   }
 }
 
-static void gen_case(vfh::Rng &r, Case &C) {
+static void gen_case(vfh::Rng &r, Case &C, vfh::Rng &q) {
   C = Case();
   int nt = (int)r.range(1, 3);
   int flags = (int)r.range(0, 15);
@@ -207,6 +209,19 @@ static void gen_case(vfh::Rng &r, Case &C) {
       bd.ellipsoid = np >= 3 && anypos && s > 0 && r.coin(0.25);
       T.beads.push_back(bd);
     }
+    // several beads sharing one <map> (same number of parents): weights and d come from the earlier bead
+    for (int b = 1; b < nb; ++b) {
+      if (!q.coin(0.35)) continue;
+      for (int b0 = 0; b0 < b; ++b0) {
+        if (T.beads[b0].parents.size() != T.beads[b].parents.size()) continue;
+        BeadDef &bd = T.beads[b];
+        bd.mapname = T.beads[b0].mapname; bd.w = T.beads[b0].w; bd.d = T.beads[b0].d; bd.has_d = T.beads[b0].has_d;
+        bool anypos = false; double sw = 0;
+        for (double x : bd.w) { if (x > 0) anypos = true; sw += x; }
+        if (!(anypos && sw > 0)) bd.ellipsoid = false;
+        break;
+      }
+    }
     if (nb >= 2 && r.coin(0.6)) {
       int k = 0;
       for (int b = 0; b + 1 < nb; ++b) T.bonded.push_back({"bond", {b, b + 1}}), ++k;
@@ -236,7 +251,9 @@ static void gen_case(vfh::Rng &r, Case &C) {
       x << "    </cg_bonded>\n";
     }
     x << "  </topology>\n  <maps>\n";
+    std::set<std::string> written;
     for (auto &bd : T.beads) {
+      if (!written.insert(bd.mapname).second) continue;  // shared map: written once
       x << "    <map>\n      <name>" << bd.mapname << "</name>\n      <weights>";
       for (double w : bd.w) x << " " << g17(w);
       x << " </weights>\n";
@@ -496,25 +513,38 @@ int main(int argc, char **argv) {
   for (long ic = first; ic < first + n; ++ic) {
     rng.reseed(vfh::hmix(vfh::hmix(vfh::hmix(0xC01, (uint64_t)seed), (uint64_t)shard), (uint64_t)ic));
     Case C;
-    gen_case(rng, C);
+    vfh::Rng q(vfh::hmix(vfh::hmix(vfh::hmix(0x7E05E, (uint64_t)seed), (uint64_t)shard), (uint64_t)ic));  // reuse features
+    gen_case(rng, C, q);
+    const bool vary_flags = q.coin(0.3);   // positions/velocities/forces appear and disappear between frames
+    const int step_mode = (int)q.range(0, 2);  // 0: every frame has the same step and time (like .gro), 1: increasing, 2: repeats
+    const bool twin = q.coin(0.5);         // second CG topology built from a second, identical atomistic topology (one per worker thread in CsgApplication)
+    for (auto &T : C.types) {
+      std::map<std::string, int> use;
+      for (auto &bd : T.beads) use[bd.mapname]++;
+      for (auto &kv : use) if (kv.second > 1) R.counter("cases_with_beads_sharing_a_map");
+    }
     C.tag = "c01 --seed " + std::to_string(seed) + " --shard " + std::to_string(shard) + " --first " + std::to_string(ic) + " --n 1";
     vfh::set_case(C.tag);
     // ---- atomistic topology through the API
-    Topology top;
+    Topology top, top2;
     std::vector<int> atom0;
     int natoms = 0;
-    for (size_t m = 0; m < C.molorder.size(); ++m) {
-      const MolType &T = C.types[C.molorder[m]];
-      Molecule *mi = top.CreateMolecule(T.name);
-      const Residue &res = top.CreateResidue(T.name);
-      atom0.push_back(natoms);
-      for (size_t a = 0; a < T.mass.size(); ++a) {
-        if (!top.BeadTypeExist(T.atype[a])) top.RegisterBeadType(T.atype[a]);
-        Bead *b = top.CreateBead(Bead::spherical, "A" + std::to_string(a + 1), T.atype[a], res.getId(), T.mass[a], 0.0);
-        mi->AddBead(b, "1:" + T.name + ":A" + std::to_string(a + 1));
-        ++natoms;
+    auto build_atomistic = [&](Topology &tp, bool count) {
+      for (size_t m = 0; m < C.molorder.size(); ++m) {
+        const MolType &T = C.types[C.molorder[m]];
+        Molecule *mi = tp.CreateMolecule(T.name);
+        const Residue &res = tp.CreateResidue(T.name);
+        if (count) atom0.push_back(natoms);
+        for (size_t a = 0; a < T.mass.size(); ++a) {
+          if (!tp.BeadTypeExist(T.atype[a])) tp.RegisterBeadType(T.atype[a]);
+          Bead *b = tp.CreateBead(Bead::spherical, "A" + std::to_string(a + 1), T.atype[a], res.getId(), T.mass[a], 0.0);
+          mi->AddBead(b, "1:" + T.name + ":A" + std::to_string(a + 1));
+          if (count) ++natoms;
+        }
       }
-    }
+    };
+    build_atomistic(top, true);
+    if (twin) build_atomistic(top2, false);
     // ---- mapping through the real xml loader
     std::string files;
     std::vector<std::string> paths;
@@ -527,14 +557,16 @@ int main(int argc, char **argv) {
       files += (t ? ";" : "") + p;
     }
     CGEngine cg;
-    Topology cgtop;
-    std::unique_ptr<TopologyMap> map;
+    Topology cgtop, cgtop2;
+    std::unique_ptr<TopologyMap> map, map2;
     std::string err;
     {
-      Silence q;
+      Silence qs;
       try {
         cg.LoadMoleculeType(files);
         map = cg.CreateCGTopology(top, cgtop);
+        // the same engine serves a second target topology (CsgApplication: one per worker)
+        map2 = cg.CreateCGTopology(twin ? top2 : top, cgtop2);
       } catch (std::exception &e) { err = e.what(); }
     }
     for (auto &p : paths) std::remove(p.c_str());
@@ -555,29 +587,55 @@ int main(int argc, char **argv) {
     for (size_t k = 0; k < refs.size(); ++k)
       if (cgtop.getBead((votca::Index)k)->getName() != C.types[refs[k].type].beads[refs[k].bead].name) names_ok = false;
     if (!names_ok) { R.inconclusive("CG bead order differs from the definition order; monitor cannot attribute beads"); continue; }
+    {
+      R.eval("reuse/second-cg-topology/structure");
+      bool same = cgtop2.BeadCount() == cgtop.BeadCount() && cgtop2.MoleculeCount() == cgtop.MoleculeCount() &&
+                  cgtop2.BondedInteractions().size() == cgtop.BondedInteractions().size() && (bool)map2;
+      for (votca::Index k = 0; same && k < cgtop.BeadCount(); ++k) {
+        Bead *a = cgtop.getBead(k), *b = cgtop2.getBead(k);
+        same = a->getName() == b->getName() && a->getType() == b->getType() && a->getSymmetry() == b->getSymmetry() && a->getMoleculeId() == b->getMoleculeId();
+      }
+      for (votca::Index i = 0; same && i < cgtop.BeadCount(); ++i)
+        for (votca::Index j = i + 1; same && j < cgtop.BeadCount(); ++j)
+          same = cgtop.getExclusions().IsExcluded(cgtop.getBead(i), cgtop.getBead(j)) == cgtop2.getExclusions().IsExcluded(cgtop2.getBead(i), cgtop2.getBead(j));
+      if (!same) {
+        R.violation("reuse/second-cg-topology/structure-differs", "a second CreateCGTopology from the same CGEngine gives different beads/molecules/bonded interactions/exclusions",
+                    case_json(C, nullptr, refs).i("beads1", cgtop.BeadCount()).i("beads2", cgtop2.BeadCount()));
+        continue;
+      }
+    }
 
-    auto set_inputs = [&](const Frame &F) {
+    long cur_step = 0;
+    double cur_time = 0;
+    auto set_inputs_on = [&](Topology &tp, const Frame &F) {
       if (F.box_explicit)
-        top.setBox(F.B.m, F.B.kind == 0 ? BoundaryCondition::typeOpen : F.B.kind == 1 ? BoundaryCondition::typeOrthorhombic : BoundaryCondition::typeTriclinic);
-      else top.setBox(F.B.m);
+        tp.setBox(F.B.m, F.B.kind == 0 ? BoundaryCondition::typeOpen : F.B.kind == 1 ? BoundaryCondition::typeOrthorhombic : BoundaryCondition::typeTriclinic);
+      else tp.setBox(F.B.m);
+      tp.setStep(cur_step);
+      tp.setTime(cur_time);
       for (int i = 0; i < natoms; ++i) {
-        Bead *b = top.getBead(i);
-        if (C.hasPos) b->setPos(F.pos[i]);
-        if (C.hasVel) b->setVel(F.vel[i]);
-        if (C.hasF) b->setF(F.f[i]);
+        Bead *b = tp.getBead(i);
+        if (C.hasPos) b->setPos(F.pos[i]); else b->HasPos(false);
+        if (C.hasVel) b->setVel(F.vel[i]); else b->HasVel(false);
+        if (C.hasF) b->setF(F.f[i]); else b->HasF(false);
       }
     };
-    auto apply = [&](std::string &what) {  // 0 ok, 1 runtime_error, 2 other exception
-      Silence q;
-      try { map->Apply(); }
+    auto set_inputs = [&](const Frame &F) {
+      set_inputs_on(top, F);
+      if (twin) set_inputs_on(top2, F);
+    };
+    auto apply_map = [&](TopologyMap &mp, std::string &what) {  // 0 ok, 1 runtime_error, 2 other exception
+      Silence qs;
+      try { mp.Apply(); }
       catch (std::runtime_error &e) { what = e.what(); return 1; }
       catch (std::exception &e) { what = e.what(); return 2; }
       return 0;
     };
-    auto collect = [&](std::vector<Got> &g) {
+    auto apply = [&](std::string &what) { return apply_map(*map, what); };
+    auto collect_from = [&](Topology &ct, std::vector<Got> &g) {
       g.assign(refs.size(), Got());
       for (size_t k = 0; k < refs.size(); ++k) {
-        Bead *b = cgtop.getBead((votca::Index)k);
+        Bead *b = ct.getBead((votca::Index)k);
         g[k].hp = b->HasPos(); g[k].hv = b->HasVel(); g[k].hf = b->HasF();
         if (g[k].hp) g[k].p = b->getPos();
         if (g[k].hv) g[k].v = b->getVel();
@@ -585,11 +643,36 @@ int main(int argc, char **argv) {
         g[k].m = b->getMass();
       }
     };
+    auto collect = [&](std::vector<Got> &g) { collect_from(cgtop, g); };
+    auto same_got = [](const Got &a, const Got &b) {
+      if (a.hp != b.hp || a.hv != b.hv || a.hf != b.hf || !(a.m == b.m)) return false;
+      if (a.hp && !(a.p == b.p)) return false;
+      if (a.hv && !(a.v == b.v)) return false;
+      if (a.hf && !(a.f == b.f)) return false;
+      return true;
+    };
+    int prev_kind = -1;
 
     for (long fr = 0; fr < nframes; ++fr) {
       Frame F;
       std::string kindtag;
       gen_frame(rng, C, atom0, natoms, F, kindtag);
+      if (vary_flags) {
+        bool hp = q.coin(0.7), hv = q.coin(0.5), hf = q.coin(0.5);
+        if (fr > 0) {
+          if (hp != C.hasPos) R.counter(hp ? "frames_positions_appear" : "frames_positions_disappear");
+          if (hv != C.hasVel) R.counter(hv ? "frames_velocities_appear" : "frames_velocities_disappear");
+          if (hf != C.hasF) R.counter(hf ? "frames_forces_appear" : "frames_forces_disappear");
+        }
+        C.hasPos = hp; C.hasVel = hv; C.hasF = hf;
+      }
+      if (fr > 0) {
+        if (step_mode == 1) { cur_step += (long)q.range(1, 1000); cur_time += q.uni(0.001, 2.0); }
+        else if (step_mode == 2 && q.coin(0.5)) { cur_step = (long)q.range(0, 3); cur_time = (double)cur_step * 0.5; }
+        R.counter(step_mode == 0 ? "frames_with_same_step_and_time_as_previous" : step_mode == 1 ? "frames_with_increasing_step" : "frames_with_repeating_steps");
+      }
+      if (prev_kind >= 0) R.counter("box_kind_transition_" + std::to_string(prev_kind) + "_to_" + std::to_string(F.B.kind));
+      prev_kind = F.B.kind;
       std::vector<Expect> E(refs.size());
       LD dmax = 0;
       bool anyband = false, anyover = false;
@@ -605,6 +688,14 @@ int main(int argc, char **argv) {
       set_inputs(F);
       std::string what;
       int rc = apply(what);
+      const bool do_second = q.coin(0.5);
+      std::vector<Got> G2nd;
+      int rc2nd = 0;
+      if (do_second) {
+        std::string w2;
+        rc2nd = apply_map(*map2, w2);
+        if (rc2nd == 0) collect_from(cgtop2, G2nd);
+      }
       auto wit = [&](long k) {
         J w = case_json(C, &F, refs);
         w.i("frame", fr).s("frame_kind", kindtag);
@@ -615,6 +706,11 @@ int main(int argc, char **argv) {
         }
         return w;
       };
+      if (do_second) {
+        R.eval("reuse/second-cg-topology/accept-reject");
+        if (rc2nd != rc)
+          R.violation("reuse/second-cg-topology/accept-reject-differs", "the map of a second CG topology made by the same CGEngine accepts/rejects the frame differently", wit(-1).i("first", rc).i("second", rc2nd).b("twin_atomistic_topology", twin));
+      }
       if (rc == 2) {
         R.eval("apply");
         R.violation("apply/unexpected-exception-type", "Apply threw something other than the documented runtime_error", wit(-1).s("error", what));
@@ -653,6 +749,33 @@ int main(int argc, char **argv) {
       collect(G);
       if (F.B.kind != 0 && cgtop.getBox() != F.B.m) {
         R.violation("box/not-propagated", "CG topology box differs from the frame's box after Apply", wit(-1));
+      }
+      if (do_second && rc2nd == 0 && !vary_flags) {
+        for (size_t k = 0; k < refs.size(); ++k) {
+          R.eval("reuse/second-cg-topology");
+          if (!same_got(G[k], G2nd[k]))
+            R.violation("reuse/second-cg-topology/result-differs", "two CG topologies created by the same CGEngine map the same frame differently",
+                        wit((long)k).b("twin_atomistic_topology", twin).vec("first_pos", vv(G[k].hp ? G[k].p : Eigen::Vector3d(0, 0, 0))).vec("second_pos", vv(G2nd[k].hp ? G2nd[k].p : Eigen::Vector3d(0, 0, 0))).d("first_mass", G[k].m).d("second_mass", G2nd[k].m));
+        }
+      }
+      if (q.coin(0.5)) {  // the same frame mapped once more by the same TopologyMap
+        std::string wi;
+        int rci = apply(wi);
+        std::vector<Got> Gi;
+        if (rci == 0) collect(Gi);
+        for (size_t k = 0; k < refs.size(); ++k) {
+          R.eval("reuse/idempotence");
+          if (rci != 0 || !same_got(G[k], Gi[k])) {
+            R.violation("reuse/idempotence", "mapping the same frame a second time with the same TopologyMap changes the result", wit((long)k).i("second_apply_rc", rci));
+            break;
+          }
+        }
+      }
+      for (size_t k = 0; k < refs.size(); ++k) {
+        // observation only: the statement defines no value when the parents carry none in this frame
+        if (!C.hasPos && G[k].hp) R.counter("observed_only_cg_bead_keeps_position_of_earlier_frame_when_parents_have_none");
+        if (!C.hasVel && G[k].hv) R.counter("observed_only_cg_bead_keeps_velocity_of_earlier_frame_when_parents_have_none");
+        if (!C.hasF && G[k].hf) R.counter("observed_only_cg_bead_keeps_force_of_earlier_frame_when_parents_have_none");
       }
       // ---- oracle comparison, bead by bead
       for (size_t k = 0; k < refs.size(); ++k) {
